@@ -176,6 +176,16 @@ Proof.
   split; [intros [[[-> ->] ->] ->]; reflexivity|intros E; inversion E; auto].
 Qed.
 
+(** The two guards and the three call sites, as the translator reads them from the source
+    (Gen/WalletConsts.v). If one of the repairs is reverted the flag flips and these stop checking. *)
+Lemma guard_held_address_on : addaccount_refuses_held_address = true.
+Proof. reflexivity. Qed.
+Lemma guard_empty_password_on : changepassword_refuses_empty = true.
+Proof. reflexivity. Qed.
+Lemma sites_use_wallet_scrypt :
+  newaccount_uses_wallet_scrypt = true /\ changepassword_uses_wallet_scrypt = true /\ getaccount_uses_wallet_scrypt = true.
+Proof. repeat split; reflexivity. Qed.
+
 Section WalletProofs.
   Variables key blob : Type.
   Variable enc : ectx -> string -> key -> blob.
@@ -187,7 +197,7 @@ Section WalletProofs.
   Notation res := (res key).
   Notation step := (step key blob enc dec).
   Notation run := (run key blob enc dec).
-  Notation clean := (clean key blob enc dec).
+  Notation caller_ok := (caller_ok key blob enc dec).
   Notation get_account := (get_account key blob dec).
   Notation get_account_by_address := (get_account_by_address key blob dec).
   Notation decrypt := (decrypt key blob dec).
@@ -537,13 +547,15 @@ Section WalletProofs.
   Qed.
 
   Lemma add_inv : forall w x w' r, Inv w -> a_default blob x = false ->
-    get_meta_by_address blob w (a_addr blob x) = None ->
     add_account_data w x = (w', r) -> Inv w' /\ (r <> ROk -> w' = w).
   Proof.
-    intros w x w' r I Hd Hfresh E. unfold add_account_data in E.
+    intros w x w' r I Hd E. unfold add_account_data in E.
     destruct (negb (check_sig_scheme (a_alg blob x) (a_sch blob x))); [inversion E; subst; split; [assumption|reflexivity]|].
     destruct (negb (String.eqb (a_label blob x) "") && mmem (a_label blob x) (w_labels blob w)) eqn:Edup;
       [inversion E; subst; split; [assumption|reflexivity]|].
+    rewrite guard_held_address_on in E. cbn [andb] in E.
+    destruct (mmem (a_addr blob x) (w_addrs blob w)) eqn:Eheld; [inversion E; subst; split; [assumption|reflexivity]|].
+    apply mmem_false in Eheld.
     inversion E; subst w' r; clear E. split; [|congruence].
     set (x' := if Nat.eqb (List.length (w_list blob w)) 0 then with_default blob x true else x).
     assert (Ha : a_addr blob x' = a_addr blob x) by (unfold x'; destruct (Nat.eqb _ 0); reflexivity).
@@ -551,7 +563,7 @@ Section WalletProofs.
     assert (Hxd : a_default blob x' = Nat.eqb (List.length (w_list blob w)) 0).
     { unfold x'. destruct (Nat.eqb _ 0); [reflexivity|assumption]. }
     set (n := List.length (w_heap blob w)).
-    pose proof (meta_none_mget w _ I Hfresh) as Hnone.
+    pose proof Eheld as Hnone.
     assert (Hlt : forall j, In j (w_list blob w) -> j < n).
     { intros j Hj. pose proof (iH w I) as H. rewrite Forall_forall in H. apply H; assumption. }
     set (w1 := {| w_params := w_params blob w; w_heap := (w_heap blob w ++ [x'])%list; w_list := (w_list blob w ++ [n])%list;
@@ -769,6 +781,7 @@ Section WalletProofs.
   Lemma change_password_inv : forall w addr old new, Inv w -> Inv (fst (change_password w addr old new)).
   Proof.
     intros w addr old new I. unfold change_password.
+    destruct (changepassword_refuses_empty && String.eqb new ""); [assumption|].
     destruct (String.eqb old new); [assumption|].
     destruct (mget addr (w_addrs blob w)) as [id|]; [|assumption].
     destruct (deref blob w id) as [x|]; [|assumption].
@@ -785,50 +798,27 @@ Section WalletProofs.
     apply upd_inv; [|assumption]. intros y. repeat split.
   Qed.
 
-  Lemma new_account_inv : forall w label sch pwd ki, Inv w ->
-    get_meta_by_address blob w (ki_addr key ki) = None -> Inv (fst (new_account w label sch pwd ki)).
+  Lemma new_account_inv : forall w label sch pwd ki, Inv w -> Inv (fst (new_account w label sch pwd ki)).
   Proof.
-    intros w label sch pwd ki I Hf. unfold new_account. destruct (String.eqb pwd ""); [assumption|].
+    intros w label sch pwd ki I. unfold new_account. destruct (String.eqb pwd ""); [assumption|].
     match goal with |- context[add_account_data w ?x] => destruct (add_account_data w x) as [w' r] eqn:E; apply add_inv in E; try assumption; try reflexivity end.
     destruct E as [I' _]. destruct r; assumption.
   Qed.
 
   Lemma import_account_inv : forall w label addr pub sch alg curve hash isdef prm pwd k, Inv w ->
-    get_meta_by_address blob w addr = None -> Inv (fst (import_account w label addr pub sch alg curve hash isdef prm pwd k)).
+    Inv (fst (import_account w label addr pub sch alg curve hash isdef prm pwd k)).
   Proof.
-    intros w label addr pub sch alg curve hash isdef prm pwd k I Hf. unfold import_account.
+    intros w label addr pub sch alg curve hash isdef prm pwd k I. unfold import_account.
     match goal with |- context[add_account_data w ?x] => destruct (add_account_data w x) as [w' r] eqn:E; apply add_inv in E; try assumption; try reflexivity end.
     destruct E as [I' _]. assumption.
   Qed.
 
-  Lemma op_clean_new : forall (w : wallet) label sch pwd ki, op_clean key blob w (ONew key label sch pwd ki) ->
-    get_meta_by_address blob w (ki_addr key ki) = None /\ newacct_params blob w = open_params blob w.
+  (** every operation keeps the invariant, whatever its arguments *)
+  Lemma step_inv : forall w o, Inv w -> Inv (fst (step w o)).
   Proof.
-    intros w label sch pwd ki [C1 C2]. cbn [op_caller_ok in_finding_class] in *. split; [assumption|].
-    apply negb_false_iff, scrypt_eqb_eq in C2. assumption.
-  Qed.
-
-  Lemma op_clean_import : forall (w : wallet) label addr pub sch alg curve hash isdef prm pwd k,
-    op_clean key blob w (OImport key label addr pub sch alg curve hash isdef prm pwd k) ->
-    prm = open_params blob w /\ pwd <> "" /\ get_meta_by_address blob w addr = None.
-  Proof.
-    intros w label addr pub sch alg curve hash isdef prm pwd k [C12 C3]. cbn [op_caller_ok in_finding_class] in *. destruct C12 as [C1 C2]. repeat split; try assumption.
-    destruct (get_meta_by_address blob w addr); [discriminate|reflexivity].
-  Qed.
-
-  Lemma op_clean_chpwd : forall (w : wallet) addr old new, op_clean key blob w (OChangePwd key addr old new) ->
-    (new = "" -> old = "") /\ chpwd_params blob w = open_params blob w.
-  Proof.
-    intros w addr old new [_ C]. cbn [in_finding_class] in C. apply orb_false_iff in C. destruct C as [C1 C2].
-    split; [|apply negb_false_iff, scrypt_eqb_eq in C2; assumption].
-    intros ->. rewrite String.eqb_refl in C1. simpl in C1. apply negb_false_iff, String.eqb_eq in C1. assumption.
-  Qed.
-
-  Lemma step_inv : forall w o, Inv w -> op_clean key blob w o -> Inv (fst (step w o)).
-  Proof.
-    intros w o I C. destruct o; cbn [Wallet.step].
-    - apply op_clean_new in C. apply new_account_inv; tauto.
-    - apply op_clean_import in C. apply import_account_inv; tauto.
+    intros w o I. destruct o; cbn [Wallet.step].
+    - apply new_account_inv; assumption.
+    - apply import_account_inv; assumption.
     - apply delete_inv; assumption.
     - apply set_default_inv; assumption.
     - apply set_label_inv; assumption.
@@ -924,14 +914,16 @@ Section WalletProofs.
   Hypothesis Hideal : ideal_cipher enc dec.
 
   Lemma add_keyed : forall w g x w' r kk pp, Inv w -> Keyed w g -> a_default blob x = false ->
-    get_meta_by_address blob w (a_addr blob x) = None ->
     a_blob blob x = enc (open_params blob w, a_addr blob x) pp kk -> pp <> "" ->
     add_account_data w x = (w', r) ->
-    (r = ROk /\ Keyed w' (mset (a_addr blob x) (kk, pp) g)) \/ ((r = ESigScheme \/ r = EDupLabel) /\ w' = w).
+    (r = ROk /\ Keyed w' (mset (a_addr blob x) (kk, pp) g)) \/ ((r = ESigScheme \/ r = EDupLabel \/ r = EDupAddr) /\ w' = w).
   Proof.
-    intros w g x w' r kk pp I K Hd Hfresh Hb Hpp E. unfold add_account_data in E.
-    destruct (check_sig_scheme (a_alg blob x) (a_sch blob x)) eqn:Ecs; simpl in E; [|inversion E; subst; right; auto].
+    intros w g x w' r kk pp I K Hd Hb Hpp E. unfold add_account_data in E.
+    destruct (check_sig_scheme (a_alg blob x) (a_sch blob x)) eqn:Ecs; cbn [negb] in E; [|inversion E; subst; right; auto].
     destruct (negb (String.eqb (a_label blob x) "") && mmem (a_label blob x) (w_labels blob w)); [inversion E; subst; right; auto|].
+    rewrite guard_held_address_on in E. cbn [andb] in E.
+    destruct (mmem (a_addr blob x) (w_addrs blob w)) eqn:Eheld; [inversion E; subst; right; auto|].
+    apply mmem_false in Eheld.
     inversion E; subst w' r; clear E. left. split; [reflexivity|].
     set (x' := if Nat.eqb (List.length (w_list blob w)) 0 then with_default blob x true else x).
     assert (Hx' : a_addr blob x' = a_addr blob x /\ a_blob blob x' = a_blob blob x /\ a_alg blob x' = a_alg blob x /\ a_sch blob x' = a_sch blob x).
@@ -944,7 +936,7 @@ Section WalletProofs.
     assert (Hother : forall j y, In j (w_list blob w) -> deref blob w j = Some y -> a_addr blob y <> a_addr blob x).
     { intros j y Hj D Ey. assert (Em : mget (a_addr blob x) (w_addrs blob w) = Some j).
       { apply (iA w I). split; [assumption|]. unfold P_id. rewrite D. unfold addr_eq. apply String.eqb_eq. assumption. }
-      unfold get_meta_by_address in Hfresh. rewrite Em, D in Hfresh. discriminate. }
+      congruence. }
     constructor; cbn [w_list w_heap].
     - intros j y Hin D. match goal with |- acct_ok (open_params blob ?ww) _ _ => change (open_params blob ww) with (open_params blob w) end.
       apply in_app_iff in Hin. destruct Hin as [Hin|[<-|[]]].
@@ -991,14 +983,15 @@ Section WalletProofs.
   Qed.
 
   Lemma change_password_keyed : forall w g addr old new, Inv w -> Keyed w g ->
-    (new = "" -> old = "") -> chpwd_params blob w = open_params blob w ->
+    chpwd_params blob w = open_params blob w ->
     Keyed (fst (change_password w addr old new))
           (gstep key g (OChangePwd key addr old new) (snd (change_password w addr old new))).
   Proof.
-    intros w g addr old new I K Hnew0 Hprm. unfold change_password.
+    intros w g addr old new I K Hprm. unfold change_password.
+    rewrite guard_empty_password_on. cbn [andb].
+    destruct (String.eqb_spec new "") as [Enew|Hnew]; [assumption|].
     destruct (String.eqb_spec old new) as [Eon|Hon].
     { cbn [fst snd gstep]. apply String.eqb_eq in Eon. rewrite Eon. assumption. }
-    assert (Hnew : new <> "") by (intros E; apply Hon; rewrite (Hnew0 E), E; reflexivity).
     destruct (mget addr (w_addrs blob w)) as [id|] eqn:Eid; [|assumption].
     destruct (deref blob w id) as [x|] eqn:Dx; [|assumption].
     destruct (decrypt (chpwd_params blob w) x old) as [k'|] eqn:Edec; [|assumption].
@@ -1073,30 +1066,38 @@ Section WalletProofs.
       apply accts_in in Hx. destruct Hx as (id & Hid & Did). eauto.
   Qed.
 
-  Lemma step_keyed : forall w g o, Inv w -> Keyed w g -> op_clean key blob w o ->
+  (** the three call sites pass the same parameters *)
+  Lemma sites_agree : forall w : wallet,
+    newacct_params blob w = open_params blob w /\ chpwd_params blob w = open_params blob w.
+  Proof.
+    intros w. unfold newacct_params, chpwd_params, open_params.
+    destruct sites_use_wallet_scrypt as (-> & -> & ->). split; reflexivity.
+  Qed.
+
+  Lemma step_keyed : forall w g o, Inv w -> Keyed w g -> op_caller_ok key blob w o ->
     Keyed (fst (step w o)) (gstep key g o (snd (step w o))).
   Proof.
-    intros w g o I K C. destruct o; cbn [Wallet.step] in *.
+    intros w g o I K C. destruct (sites_agree w) as [Snew Schp]. destruct o; cbn [Wallet.step op_caller_ok] in *.
     - (* NewAccount *)
-      apply op_clean_new in C. destruct C as [Cf Cp]. unfold Wallet.new_account. destruct (String.eqb_spec pwd "") as [->|Hp]; [assumption|].
+      unfold Wallet.new_account. destruct (String.eqb_spec pwd "") as [->|Hp]; [assumption|].
       match goal with |- context[add_account_data w ?x] =>
         destruct (add_account_data w x) as [w' r] eqn:E;
         assert (Hb : a_blob blob x = enc (open_params blob w, a_addr blob x) pwd (ki_key key ki))
-          by (cbn [a_blob a_addr]; rewrite Cp; reflexivity);
-        destruct (add_keyed w g x w' r _ _ I K eq_refl Cf Hb Hp E) as [[-> K']|[[-> | ->] ->]]
+          by (cbn [a_blob a_addr]; rewrite Snew; reflexivity);
+        destruct (add_keyed w g x w' r _ _ I K eq_refl Hb Hp E) as [[-> K']|[[-> |[-> | ->]] ->]]
       end; cbn [fst snd gstep]; assumption.
     - (* ImportAccount *)
-      apply op_clean_import in C. destruct C as (Cp & Cpw & Cf). unfold Wallet.import_account.
+      destruct C as (Cp & Cpw). unfold Wallet.import_account.
       match goal with |- context[add_account_data w ?x] =>
         destruct (add_account_data w x) as [w' r] eqn:E;
         assert (Hb : a_blob blob x = enc (open_params blob w, a_addr blob x) pwd k)
           by (cbn [a_blob a_addr]; rewrite Cp; reflexivity);
-        destruct (add_keyed w g x w' r _ _ I K eq_refl Cf Hb Cpw E) as [[-> K']|[[-> | ->] ->]]
+        destruct (add_keyed w g x w' r _ _ I K eq_refl Hb Cpw E) as [[-> K']|[[-> |[-> | ->]] ->]]
       end; cbn [fst snd gstep]; assumption.
     - apply delete_keyed; assumption.
     - cbn [gstep]. apply set_default_keyed; assumption.
     - cbn [gstep]. apply set_label_keyed; assumption.
-    - apply op_clean_chpwd in C. destruct C. apply change_password_keyed; assumption.
+    - apply change_password_keyed; assumption.
     - cbn [gstep]. apply change_sig_scheme_keyed; assumption.
     - cbn [fst snd gstep]. apply reload_keyed; assumption.
   Qed.
@@ -1105,12 +1106,12 @@ Section WalletProofs.
   Proof. intros prm. constructor; simpl; [tauto|discriminate]. Qed.
 
   (** *** histories *)
-  Lemma run_inv : forall ops w g, Inv w -> Keyed w g -> clean w ops ->
+  Lemma run_inv : forall ops w g, Inv w -> Keyed w g -> caller_ok w ops ->
     Inv (fst (fst (run w g ops))) /\ Keyed (fst (fst (run w g ops))) (snd (fst (run w g ops))).
   Proof.
     induction ops as [|o r IH]; intros w g I K C; [simpl; auto|].
     destruct C as [Co Cr]. simpl.
-    pose proof (step_inv w o I Co) as I1. pose proof (step_keyed w g o I K Co) as K1.
+    pose proof (step_inv w o I) as I1. pose proof (step_keyed w g o I K Co) as K1.
     destruct (step w o) as [w1 e] eqn:Es. cbn [fst snd] in *.
     specialize (IH w1 (gstep key g o e) I1 K1 Cr).
     destruct (run w1 (gstep key g o e) r) as [[w2 g2] es]. exact IH.
@@ -1144,9 +1145,8 @@ Section WalletProofs.
     - intros a k p Eg. eapply opens_when_keyed; eauto.
   Qed.
 
-  (** Main theorem: every history outside the finding classes, from an empty wallet with any
-      scrypt parameters. *)
-  Theorem wallet_persists : forall prm ops, clean (init blob prm) ops ->
+  (** Main theorem: every history, from an empty wallet with any scrypt parameters. *)
+  Theorem wallet_persists : forall prm ops, caller_ok (init blob prm) ops ->
     wallet_property key blob dec (fst (fst (run (init blob prm) [] ops))) (snd (fst (run (init blob prm) [] ops))).
   Proof.
     intros prm ops C. destruct (run_inv ops (init blob prm) [] (init_inv prm) (init_keyed prm) C) as [I K].
@@ -1155,7 +1155,7 @@ Section WalletProofs.
 
   (** The same already holds BEFORE the reload (the in-memory client opens each account with
       exactly its current password). *)
-  Theorem wallet_guards_in_memory : forall prm ops, clean (init blob prm) ops ->
+  Theorem wallet_guards_in_memory : forall prm ops, caller_ok (init blob prm) ops ->
     let w := fst (fst (run (init blob prm) [] ops)) in
     let g := snd (fst (run (init blob prm) [] ops)) in
     forall a k p, mget a g = Some (k, p) -> opens_only_with key blob dec w a k p.
@@ -1167,11 +1167,12 @@ Section WalletProofs.
   (** An operation that reports an error (or "no such account") leaves the client unchanged. *)
   Definition is_success (r : res) : bool := match r with ROk | RKey _ => true | _ => false end.
   Lemma add_result_cases : forall w x w' r, add_account_data w x = (w', r) ->
-    r = ROk \/ ((r = ESigScheme \/ r = EDupLabel) /\ w' = w).
+    r = ROk \/ ((r = ESigScheme \/ r = EDupLabel \/ r = EDupAddr) /\ w' = w).
   Proof.
     intros w x w' r E. unfold Wallet.add_account_data in E.
     destruct (negb (check_sig_scheme (a_alg blob x) (a_sch blob x))); [inversion E; auto|].
-    destruct (negb (String.eqb (a_label blob x) "") && mmem (a_label blob x) (w_labels blob w)); inversion E; auto.
+    destruct (negb (String.eqb (a_label blob x) "") && mmem (a_label blob x) (w_labels blob w)); [inversion E; auto|].
+    destruct (addaccount_refuses_held_address && mmem (a_addr blob x) (w_addrs blob w)); inversion E; auto 6.
   Qed.
 
   Theorem failed_step_unchanged : forall w o, is_success (snd (step w o)) = false -> fst (step w o) = w.
@@ -1179,10 +1180,10 @@ Section WalletProofs.
     intros w o. destruct o; cbn [Wallet.step].
     - unfold Wallet.new_account. destruct (String.eqb pwd ""); [reflexivity|].
       match goal with |- context[add_account_data w ?x] => destruct (add_account_data w x) as [w' r] eqn:E end.
-      apply add_result_cases in E. destruct E as [->|[[->| ->] ->]]; cbn; intros; try reflexivity; discriminate.
+      apply add_result_cases in E. destruct E as [->|[[->|[->| ->]] ->]]; cbn; intros; try reflexivity; discriminate.
     - unfold Wallet.import_account.
       match goal with |- context[add_account_data w ?x] => destruct (add_account_data w x) as [w' r] eqn:E end.
-      apply add_result_cases in E. destruct E as [->|[[->| ->] ->]]; cbn; intros; try reflexivity; discriminate.
+      apply add_result_cases in E. destruct E as [->|[[->|[->| ->]] ->]]; cbn; intros; try reflexivity; discriminate.
     - unfold Wallet.delete_account.
       repeat match goal with
              | |- context[match ?x with _ => _ end] => destruct x eqn:?
@@ -1217,15 +1218,6 @@ Section WalletProofs.
 
 End WalletProofs.
 
-(** ** [clean] = the caller's obligations + no operation of a finding class *)
-Lemma clean_split : forall key blob enc dec ops w,
-  clean key blob enc dec w ops <->
-  caller_ok key blob enc dec w ops /\ history_in_finding_class key blob enc dec w ops = false.
-Proof.
-  intros key blob enc dec. induction ops as [|o r IH]; intros w; simpl; [tauto|].
-  rewrite IH, orb_false_iff. unfold op_clean. tauto.
-Qed.
-
 (** ** the executable cipher instance is ideal *)
 Lemma ectx_eqb_eq : forall a b, ectx_eqb a b = true <-> a = b.
 Proof.
@@ -1243,42 +1235,25 @@ Proof.
     apply ectx_eqb_eq in E1. subst. congruence.
 Qed.
 
-(** ** witnesses of the three defects, on the executable instance *)
+(** ** the three former defects (repaired in the code; the histories are replayed on the
+    implementation from corpus/C38 on every run), on the executable instance *)
 Local Open Scope N_scope.
 Definition wit_key : keyinfo N := {| ki_key := 7; ki_addr := "A1"; ki_pub := "02aa"; ki_alg := 0; ki_curve := "P-256" |}.
 Definition wit_import (prm : scrypt) : op N := OImport N "main" "A1" "02aa" 1 0 "P-256" "" false prm "pw" 7.
-
-(** newaccount:wallet-scrypt-ignored — a wallet exported with --low-security, then `account add` *)
+(** a wallet exported with --low-security, then `account add` *)
 Definition wit_newaccount : list (op N) := [ONew N "main" 1 "pw" wit_key].
-(** import:duplicate-address — the same account imported twice, then deleted once *)
+(** the same account imported twice, then deleted once *)
 Definition wit_dup_import : list (op N) := [wit_import default_scrypt; wit_import default_scrypt; ODelete N "A1" "pw"].
-(** chpwd:empty-new-password *)
+(** ChangePassword to the empty password *)
 Definition wit_empty_pwd : list (op N) := [wit_import default_scrypt; OChangePwd N "A1" "pw" ""].
 
 Definition irun (prm : scrypt) (ops : list (op N)) := run N iblob ienc idec (init iblob prm) [] ops.
 Definition iprop (prm : scrypt) (ops : list (op N)) : Prop :=
   wallet_property N iblob idec (fst (fst (irun prm ops))) (snd (fst (irun prm ops))).
 
-Lemma wit_newaccount_caller_ok : caller_ok N iblob ienc idec (init iblob low_security_scrypt) wit_newaccount.
-Proof. vm_compute. auto. Qed.
-
-Lemma wit_newaccount_fails : ~ iprop low_security_scrypt wit_newaccount.
-Proof.
-  intros (_ & _ & H). specialize (H "A1"%string 7 "pw"%string eq_refl). destruct H as [H _].
-  vm_compute in H. discriminate.
-Qed.
-
-Lemma wit_dup_import_caller_ok : caller_ok N iblob ienc idec (init iblob default_scrypt) wit_dup_import.
-Proof. vm_compute. repeat split; discriminate. Qed.
-
-Lemma wit_dup_import_fails : ~ iprop default_scrypt wit_dup_import.
-Proof. intros ((_ & H & _) & _). vm_compute in H. discriminate. Qed.
-
-Lemma wit_empty_pwd_caller_ok : caller_ok N iblob ienc idec (init iblob default_scrypt) wit_empty_pwd.
-Proof. vm_compute. repeat split; discriminate. Qed.
-
-Lemma wit_empty_pwd_fails : ~ iprop default_scrypt wit_empty_pwd.
-Proof.
-  intros (_ & _ & H). specialize (H "A1"%string 7 ""%string eq_refl). destruct H as [H _].
-  vm_compute in H. discriminate.
-Qed.
+Lemma wit_results :
+  snd (irun low_security_scrypt wit_newaccount) = [RKey 7] /\
+  get_account_by_address N iblob idec (reload iblob (fst (fst (irun low_security_scrypt wit_newaccount)))) "A1" "pw" = RKey 7 /\
+  snd (irun default_scrypt wit_dup_import) = [ROk; EDupAddr; EDeleteDefault] /\
+  snd (irun default_scrypt wit_empty_pwd) = [ROk; EEmptyPwd].
+Proof. vm_compute. repeat split. Qed.
